@@ -127,11 +127,19 @@ def _reservoirs(run, prog, ts):
               "sweep that drops reservoirs of leaves no longer in the tree", "create; then sweep")
     ins = [(ev, ctx) for ev, ctx in walk(s.events) if isinstance(ev, ir.Mut) and ev.method == "update" and
            ev.recv == ("sub", sev.cont, leaf_id)]
-    ok = len(ins) == 1 and ins[0][0].args == (x,) and index[id(ins[0][0])] > index[id(sev)] and \
+    def inserted(ev):
+        """the observation handed to reservoir.update (positional or x=...)"""
+        if len(ev.args) == 1 and not ev.kwargs:
+            return ev.args[0]
+        if not ev.args and len(ev.kwargs) == 1 and ev.kwargs[0][0] == "x":
+            return ev.kwargs[0][1]
+        return None
+    ok = len(ins) == 1 and inserted(ins[0][0]) == x and index[id(ins[0][0])] > index[id(sev)] and \
         guard not in ins[0][1].guards
     why = ""
-    if len(ins) == 1 and ins[0][0].args != (x,):
-        why = f"the reservoir receives {ir.show_nl(ins[0][0].args[0])[:80] if ins[0][0].args else None} instead of the complete point"
+    if len(ins) == 1 and inserted(ins[0][0]) != x:
+        got = inserted(ins[0][0])
+        why = f"the reservoir receives {ir.show_nl(got)[:80] if got else None} instead of the complete point"
     elif len(ins) != 1:
         why = f"{len(ins)} insertions into the leaf reservoir"
     elif guard in ins[0][1].guards:
@@ -388,7 +396,7 @@ def _imputer(run, prog, ts, ti):
     # an argument that is built from x_i must be x_i
     samplers = []
     for ev, ctx in walk(s.events, structural=True):
-        if isinstance(ev, ir.Inlined) and ev.cls is not None and ev.fn.name in ti.methods and not ctx.inl:
+        if isinstance(ev, ir.Inlined) and ev.cls is not None and ev.fn.name in {n for c in prog.mro(ti) for n in c.methods} and not ctx.inl:
             samplers.append(ev)
             derived = [(k, v) for k, v in ev.params.items() if x in ir.subterms(v)]
             for k, v in derived:
@@ -399,8 +407,10 @@ def _imputer(run, prog, ts, ti):
                           f"{ev.qual}({k}=x_i)")
             run.need(derived or not ev.params, f"{ev.qual} is not given the explained instance")
     # the storage-mode sampler is the helper that asks the storage's id writer for the leaf of the instance
-    smode = [ev for ev in samplers
-             if any(isinstance(c, ir.Call) and c.method == WRITER for c, _ in walk(ev.body))]
+    helpers = {n for c in prog.mro(ti) for n in c.methods}
+    smode = [ev for ev, _ in walk(s.events, structural=True)
+             if isinstance(ev, ir.Inlined) and ev.cls is not None and ev.fn.name in helpers and
+             any(isinstance(c, ir.Call) and c.method == WRITER and not cctx.inl for c, cctx in walk(ev.body))]
     run.need(len({ev.fn.name for ev in smode}) == 1, "TreeImputer.impute has no (single) storage-mode sampler using the id writer")
     sname = smode[0].fn.name
     st = prog.summarise(ti, sname)
@@ -413,8 +423,9 @@ def _imputer(run, prog, ts, ti):
     run.check(ok, "AGREE", "imputer-id", f"{st.path}:{st.fn.lineno}", fq2, "leaf id of the instance",
               "TreeImputer must compute the leaf id with the storage's own id writer on the explained instance",
               "leaf_id = storage.get_path_through_tree(root, x_i)")
-    own = set(ti.methods)
-    tries = [ev for ev, _ in walk(st.events, structural=True) if isinstance(ev, ir.Try)]
+    own = {n for c in prog.mro(ti) for n in c.methods}
+    tries = [ev for ev, _ in walk(st.events, structural=True) if isinstance(ev, ir.Try) and
+             any("KeyError" in h.exc or "LookupError" in h.exc for h in ev.handlers)]
     good = False
     why = "no try/except KeyError around the reservoir lookup"
     if len(tries) == 1 and ok:
